@@ -14,6 +14,7 @@ import FwdVerif.Lemmas.C17Main
 import FwdVerif.Lemmas.C17Subject
 import FwdVerif.Lemmas.C17Conc
 import FwdVerif.Lemmas.C17Local
+import FwdVerif.Model.C16Src
 
 namespace FwdVerif
 namespace C17
@@ -803,6 +804,38 @@ example : ∀ m, fromList anyList = .ok m →
   have hloc : localhostClass [] (subjectOf loopbackTarget.authority) = true := by with_unfolding_all decide
   exact ⟨(c17_local_refused_iff _ _ _ _ _).mpr ⟨rfl, hloc⟩,
     (c17_local_direct_mode _ _ _ _ hloc).2.2 rfl (Or.inl rfl)⟩
+
+/-! ## How a domain rule list arrives (`--deny-domains`, `--direct-domains`, `--mitm-domains`)
+
+  The three lists are `anyflag.SliceValue` flags like the header rule lists; `Model/C16Src.lean`
+  models that plumbing (`cobrautil.BindAll`, `SliceValue.Set` / `Replace`, `encoding/csv`) for rule
+  TEXTS, whatever their kind.  The union-minus-excludes theorems above are about the list the
+  matcher is built from; these say that list is the list that was written down.
+
+  Byte strings: "^a{1,3}$" = [94,97,123,49,44,51,125,36]   "^a{1" = [94,97,123,49]   "3}$" = [51,125,36] -/
+
+open C16 (Source rulesOfSource textsOfConfig joinedThenSplit csvRecord csvEncode setAll) in
+/-- a config-file list of rules reaches the matcher element by element: nothing inside a rule — the
+    comma of a counted repetition `{n,m}`, a comma or a double quote in a class — ever splits it -/
+theorem c17_config_list_elements_are_rules (s : Source) (xs : List Bytes)
+    (hf : s.flags = []) (he : s.env = none ∨ s.env = some []) (hc : s.config = some (.list xs)) :
+    rulesOfSource s = .ok xs := by
+  unfold rulesOfSource
+  rcases he with he | he <;> simp [hf, he, hc, textsOfConfig]
+
+open C16 (Source rulesOfSource) in
+example : rulesOfSource { config := some (.list [[94, 97, 123, 49, 44, 51, 125, 36], [45, 120]]) } =
+    .ok [[94, 97, 123, 49, 44, 51, 125, 36], [45, 120]] := by decide
+
+open C16 (Source rulesOfSource joinedThenSplit) in
+/-- witness for the slip "join the config-file list with commas and hand it to `Set`": the one rule
+    `^a{1,3}$` comes back as the two texts `^a{1` and `3}$` — both valid regexps for Go, so nothing
+    fails at start-up and the list in force is a different list -/
+theorem c17_join_then_split_witness :
+    rulesOfSource { config := some (.list [[94, 97, 123, 49, 44, 51, 125, 36]]) } =
+      .ok [[94, 97, 123, 49, 44, 51, 125, 36]] ∧
+    joinedThenSplit [[94, 97, 123, 49, 44, 51, 125, 36]] = .ok [[94, 97, 123, 49], [51, 125, 36]] := by
+  decide
 
 end C17
 end FwdVerif
